@@ -428,6 +428,68 @@ std::vector<int> more_large_lengths() {
 // quick: listed lengths that get the complete entry-point set (the others run in light mode)
 bool quick_full(int n) { return n == 4099 || n == 8192 || n == 10000 || n == 65537 || n == 65538 || n == 100000 || n == 131072; }
 
+
+// one (n, m, w) czt configuration against the defining double sum with the ACTUAL double w (w^(jk) = exp(i*j*k*arg w),
+// evaluated by the long-double recurrence (w^k)^j) - same tolerance as czt.def / czt.big
+void czt_against_sum(Ctx& ctx, Run& r, int n, int m, cmplx_t w, const std::vector<cmplx_t>& as, const std::string& wkey) {
+    const ld argw = atan2l((ld)w.im, (ld)w.re);
+    int n2 = 1;
+    while (n2 < m + n - 1) n2 *= 2;
+    const ld Lc = (ld)n2 + (ld)std::max(m, n) * std::max(m, n);
+    for (const cmplx_t& a : as) {
+        const ld amag = hypotl((ld)a.re, (ld)a.im), aarg = atan2l((ld)a.im, (ld)a.re);
+        std::vector<cld> ainv((size_t)n);
+        for (int j = 0; j < n; ++j) ainv[(size_t)j] = powl(amag, -(ld)j) * cis(fmodl(-aarg * (ld)j, 2 * PI_L));
+        CztPlan plan(n, m, w, a);
+        for (int l = 0; l < 2; ++l) {
+            std::vector<cld> xs((size_t)n, cld(0)), y((size_t)n);
+            if (l == 0)
+                for (int j = 0; j < n; ++j) xs[(size_t)j] = cld(lcg_val(3, (uint64_t)j), lcg_val(4, (uint64_t)j));
+            else
+                xs[(size_t)(n - 1)] = CAMP;
+            ld s1 = 0;
+            for (int j = 0; j < n; ++j) {
+                y[(size_t)j] = xs[(size_t)j] * ainv[(size_t)j];
+                s1 += std::abs(y[(size_t)j]);
+            }
+            std::vector<cld> Rm((size_t)m);
+            for (int k = 0; k < m; ++k) {
+                cld acc = 0;
+                if (l == 1) {
+                    acc = y[(size_t)(n - 1)] * cis(fmodl(argw * (ld)k * (ld)(n - 1), 2 * PI_L));
+                } else {
+                    const cld z = cis(fmodl(argw * (ld)k, 2 * PI_L));
+                    cld pw = 1;
+                    for (int j = 0; j < n; ++j) {
+                        acc += y[(size_t)j] * pw;
+                        pw *= z;
+                    }
+                }
+                Rm[(size_t)k] = acc;
+            }
+            const arr_cmplx xa = to_arr(xs);
+            const ld scale = sqrtl((ld)m) * s1;
+            auto one = [&](const char* site, const arr_cmplx& X) {
+                r.tick();
+                if (X.size() != m) {
+                    ctx.fail(site, fmt("result has %d elements", X.size()), fmt("%d elements", m), P().kv("kind", "size"));
+                    return;
+                }
+                ld sq = 0;
+                for (int k = 0; k < m; ++k) sq += std::norm(cld(X[k].re, X[k].im) - Rm[(size_t)k]);
+                const double err = (sq == sq) ? (double)(sqrtl(sq) / (Lc * (ld)EPS * scale)) : INFINITY;
+                if (std::isfinite(err)) ctx.worst(wkey, err);
+                if (!(err <= TOL))
+                    ctx.fail(site, fmt("l2 err = %.3g * (n2+max(m,n)^2)*eps*sqrt(m)*sum|x_j a^-j| (w = %.17g%+.17gi), X[0]=%.17g%+.17gi", err, w.re, w.im, X[0].re, X[0].im),
+                             fmt("<= %.0f; X[0]=%.17Lg%+.17Lgi", TOL, Rm[0].real(), Rm[0].imag()),
+                             P().kv("letter", l == 0 ? "dense" : "impulse@n-1").kv("a_re", a.re).kv("a_im", a.im).kv("kind", "value"));
+            };
+            one("CztPlan::solve", plan.solve(xa));
+            if (l == 0) one("czt", czt(xa, m, w, a));
+        }
+    }
+}
+
 }   // namespace
 
 int main(int argc, char** argv) {
@@ -790,6 +852,43 @@ int main(int argc, char** argv) {
                 } catch (const std::exception& ex) {
                     ctx.fail("czt", std::string("exception: ") + ex.what(), "a transform", P().kv("kind", "exception"));
                 }
+            }
+        }
+    }
+    // ---------------------------------------------------------------- czt with w next to, but not at, a root of unity
+    // angle(w) = 2 pi j/base * (1 + d), base in {n, m}: a unit-modulus w that is NOT a root of unity must be used as given
+    // (an angle error is multiplied by j*k in the sum).  Oracle: double sum with the actual double w.
+    {
+        struct NM {
+            int n, m;
+        };
+        std::vector<NM> nm = {{16, 16}, {64, 64}, {100, 100}, {257, 257}, {1000, 1000}, {16, 31}, {64, 63}, {64, 65}, {100, 17}, {48, 96}, {257, 300}, {1000, 999}};
+        if (T)
+            for (NM e : {NM{32, 32}, NM{128, 128}, NM{500, 500}, NM{2048, 2048}, NM{4096, 4096}, NM{1000, 2000}, NM{4099, 64}, NM{64, 4099}}) nm.push_back(e);
+        const ld ds[8] = {1e-8L, -1e-8L, 1e-10L, -1e-10L, 1e-12L, -1e-12L, 4 * (ld)EPS, -4 * (ld)EPS};
+        const char* dn[8] = {"+1e-8", "-1e-8", "+1e-10", "-1e-10", "+1e-12", "-1e-12", "+4eps", "-4eps"};
+        for (const NM& e : nm) {
+            const int n = e.n, m = e.m;
+            for (int ib = 0; ib < 2; ++ib) {
+                if (ib == 1 && m == n) continue;
+                const int base = ib == 0 ? n : m;
+                std::set<int> js = {1, 3, base - 1};
+                for (int j : js)
+                    for (int id = 0; id < 8; ++id) {
+                        if (!ctx.take("czt.nearroot", P().kv("n", n).kv("m", m).kv("base", ib == 0 ? "n" : "m").kv("j", j).kv("d", dn[id]))) continue;
+                        ctx.nontrivial();
+                        r.untick();
+                        try {
+                            const ld th = 2 * PI_L * (ld)j / (ld)base * (1 + ds[id]);
+                            const cmplx_t w((double)cosl(th), (double)-sinl(th));
+                            std::vector<cmplx_t> as = {cmplx_t(1, 0), cmplx_t(-1, 0), cmplx_t(0.6, 0.8)};
+                            if (n <= 257) as.push_back(cmplx_t(0.5 * std::cos(0.7), 0.5 * std::sin(0.7)));
+                            ctx.note(std::string("czt.nearroot d=") + dn[id]);
+                            czt_against_sum(ctx, r, n, m, w, as, "czt.nearroot: l2 err/((n2+max(m,n)^2) eps sqrt(m) sum|x a^-j|)");
+                        } catch (const std::exception& ex) {
+                            ctx.fail("czt", std::string("exception: ") + ex.what(), "a transform", P().kv("kind", "exception"));
+                        }
+                    }
             }
         }
     }
